@@ -14,6 +14,9 @@ CHECKS = {
  "C05": dict(engine="integ", technique="model-based property testing on a virtual clock (bounded-exhaustive configurations x short histories, Hypothesis-generated longer histories) against a reference timeline model",
    text="Exploration: all 216 configurations (state_check_now x state_hold x state_hold_false x initial truth x decorator/task.wait_until x new/legacy subsystem) with every history of <= 2 (quick) / <= 3 (thorough) relevant operations, plus Hypothesis-generated timed histories up to 12 operations including unwatched and attribute-only changes, executed in the real integration on a harness-owned virtual clock; recorded run times and arguments are compared with a timeline state machine written from the documentation. Exhaustive for the bounded family, sampled beyond.",
    note="Trusts Home Assistant's state machine and the harness clock injection (trigger.dt_now, time.monotonic of trigger.py / decorators/timing.py, loop.time()); event times keep >= 100 ms distance from every deadline so the 5 ms tolerance never decides a verdict.", ref="2.C05"),
+ "C04": dict(engine="integ", technique="model-based property testing (Hypothesis-generated trigger scripts and state histories, reference evaluator on structured expressions, both decorator subsystems)",
+   text="Exploration: Hypothesis-generated scripts (1-3 functions x 1-2 @state_trigger decorators with any-change forms, expressions over 3 entities x 2 attributes incl. .old, int() casts, and/or/not, undefined names, list arguments, watch=, kwargs overrides) and histories of settled operations and bursts, executed in the real integration under both subsystems; per decorator the ordered list of runs and their var_name/value/old_value/kwargs is compared with a reference model (dict state machine + CPython evaluation of the structured expression). 1.6k cases quick, 40k thorough.",
+   note="Trusts Home Assistant's state machine; names outside watch= and .old of a non-changed entity are outside the documented contract and restricted as stated in the evidence assumptions; deviations for unlisted undefined names under watch= are attributed to the open finding C04-watch-unlisted-undefined-raises by a model variant that must reproduce the observed history exactly.", ref="2.C04"),
 }
 NOT_YET = "check not built yet in this round (see DESIGN.md section 2 for the plan)"
 props = [json.loads(l)["id"] for l in open(os.path.join(V, "properties.jsonl"))]
